@@ -221,6 +221,9 @@ func pathDepth(v ssa.Value, d int) string {
 	case *ssa.Function:
 		return x.Name()
 	case *ssa.Alloc:
+		if prm := spilledParam(x); prm != nil {
+			return prm.Name()
+		}
 		if x.Comment != "" {
 			return "local:" + x.Comment
 		}
@@ -481,4 +484,58 @@ var regRe = regexp.MustCompile(`%?t\d+(@[\w$]+)?`)
 // StablePath is Path with SSA register names removed, for use in obligation keys.
 func StablePath(v ssa.Value) string {
 	return regRe.ReplaceAllString(Path(v), "_")
+}
+
+// spilledParam: the alloc is the cell of a parameter that was moved to the
+// heap because a closure captures it, and nothing else is ever stored into it.
+func spilledParam(a *ssa.Alloc) *ssa.Parameter {
+	var prm *ssa.Parameter
+	for _, r := range Referrers(a) {
+		switch x := r.(type) {
+		case *ssa.Store:
+			if x.Addr != ssa.Value(a) {
+				continue
+			}
+			p, ok := x.Val.(*ssa.Parameter)
+			if !ok || prm != nil {
+				return nil
+			}
+			prm = p
+		case *ssa.MakeClosure:
+			fn, _ := x.Fn.(*ssa.Function)
+			if fn == nil {
+				return nil
+			}
+			for i, b := range x.Bindings {
+				if b == ssa.Value(a) && i < len(fn.FreeVars) {
+					if freeVarStored(fn, fn.FreeVars[i]) {
+						return nil
+					}
+				}
+			}
+		}
+	}
+	return prm
+}
+
+func freeVarStored(fn *ssa.Function, fv *ssa.FreeVar) bool {
+	for _, r := range Referrers(fv) {
+		switch x := r.(type) {
+		case *ssa.Store:
+			if x.Addr == ssa.Value(fv) {
+				return true
+			}
+		case *ssa.MakeClosure:
+			g, _ := x.Fn.(*ssa.Function)
+			if g == nil {
+				return true
+			}
+			for i, b := range x.Bindings {
+				if b == ssa.Value(fv) && i < len(g.FreeVars) && freeVarStored(g, g.FreeVars[i]) {
+					return true
+				}
+			}
+		}
+	}
+	return false
 }
